@@ -966,3 +966,159 @@ Proof.
   unfold do_new_repo. match goal with |- context [if ?b then _ else _] => destruct b end; auto.
   unfold new_uuid. simpl. discriminate.
 Qed.
+
+(* ------------------------------------------------------------------ delete repo *)
+
+Definition drop_one (s : state) (v : N) (u : string) : state :=
+  mkState (st_repos s) (delete u (st_repo_of s)) (st_roots s) (delete u (st_u2v s))
+          (delete v (st_v2u s)) (st_heads s) (st_next_v s) (st_next_r s) (st_next_i s).
+
+Lemma drop_versions_none vs : fold_left (fun acc v =>
+    match acc with
+    | None => None
+    | Some s => match st_v2u s !! v with
+                | None => None
+                | Some u => Some (drop_one s v u)
+                end
+    end) vs None = None.
+Proof. induction vs; simpl; auto. Qed.
+
+Lemma drop_versions_cons s a vs :
+  drop_versions s (a :: vs) =
+  match st_v2u s !! a with None => None | Some u => drop_versions (drop_one s a u) vs end.
+Proof.
+  unfold drop_versions. simpl. destruct (st_v2u s !! a); [reflexivity|]. apply drop_versions_none.
+Qed.
+
+Definition maps_bij (s : state) : Prop := forall u v, st_u2v s !! u = Some v <-> st_v2u s !! v = Some u.
+
+Lemma drop_versions_spec vs : forall s, maps_bij s -> NoDup vs -> (forall v, v ∈ vs -> is_Some (st_v2u s !! v)) ->
+  exists s', drop_versions s vs = Some s' /\
+    st_repos s' = st_repos s /\ st_roots s' = st_roots s /\ st_heads s' = st_heads s /\
+    st_next_v s' = st_next_v s /\ st_next_r s' = st_next_r s /\ st_next_i s' = st_next_i s /\
+    (forall x y, st_u2v s' !! x = Some y <-> st_u2v s !! x = Some y /\ y ∉ vs) /\
+    (forall y x, st_v2u s' !! y = Some x <-> st_v2u s !! y = Some x /\ y ∉ vs) /\
+    (forall x j, st_repo_of s' !! x = Some j <->
+                 st_repo_of s !! x = Some j /\ ~ exists y, y ∈ vs /\ st_v2u s !! y = Some x).
+Proof.
+  induction vs as [|a vs IH]; intros s B ND Hall.
+  - exists s. unfold drop_versions. simpl.
+    split; [reflexivity|]. do 6 (split; [reflexivity|]).
+    split; [|split].
+    + intros x y. split; [intros H; split; [exact H|intros Hin; inversion Hin]|intros [H _]; exact H].
+    + intros y x. split; [intros H; split; [exact H|intros Hin; inversion Hin]|intros [H _]; exact H].
+    + intros x j. split; [intros H; split; [exact H|intros (y & Hin & _); inversion Hin]|intros [H _]; exact H].
+  - apply NoDup_cons in ND as [Na ND].
+    destruct (Hall a) as [ua Ha]; [apply elem_of_cons; auto|].
+    rewrite drop_versions_cons, Ha.
+    set (s1 := drop_one s a ua).
+    assert (B1 : maps_bij s1).
+    { intros x y. unfold s1. simpl. rewrite !lookup_delete_Some. split.
+      - intros [Nx Hx]. pose proof (proj1 (B x y) Hx) as Hy. split; auto. intros <-. congruence.
+      - intros [Ny Hy]. pose proof (proj2 (B x y) Hy) as Hx. split; auto. intros <-.
+        apply B in Ha. congruence. }
+    assert (Hall1 : forall v, v ∈ vs -> is_Some (st_v2u s1 !! v)).
+    { intros v Hv. unfold s1. simpl. rewrite lookup_delete_ne by (intros <-; contradiction).
+      apply Hall. apply elem_of_cons. auto. }
+    destruct (IH s1 B1 ND Hall1) as (s' & E & E1 & E2 & E3 & E4 & E5 & E6 & Hu & Hv & Hr).
+    exists s'. split; auto. unfold s1 in *. simpl in *.
+    do 6 (split; [assumption|]).
+    split; [|split].
+    + intros x y. split.
+      * intros H. apply Hu in H as [H Ny]. apply lookup_delete_Some in H as [Nx H]. split; auto.
+        intros Hin. apply elem_of_cons in Hin as [->|Hin]; auto. apply B in H. congruence.
+      * intros [H Ny]. apply not_elem_of_cons in Ny as [Ny1 Ny2]. apply Hu. split; auto.
+        apply lookup_delete_Some. split; auto. intros <-. apply B in Ha. congruence.
+    + intros y x. split.
+      * intros H. apply Hv in H as [H Ny]. apply lookup_delete_Some in H as [Nx H]. split; auto.
+        intros Hin. apply elem_of_cons in Hin as [->|Hin]; auto.
+      * intros [H Ny]. apply not_elem_of_cons in Ny as [Ny1 Ny2]. apply Hv. split; auto.
+        apply lookup_delete_Some. auto.
+    + intros x j. split.
+      * intros H. apply Hr in H as [H Nex]. apply lookup_delete_Some in H as [Nx H]. split; auto.
+        intros (y & Hin & Hy). apply elem_of_cons in Hin as [->|Hin].
+        -- congruence.
+        -- apply Nex. exists y. split; auto. apply lookup_delete_Some. split; auto. intros <-. contradiction.
+      * intros [H Nex]. apply Hr. split.
+        -- apply lookup_delete_Some. split; auto. intros <-. apply Nex. exists a. split; auto. apply elem_of_cons. auto.
+        -- intros (y & Hin & Hy). apply lookup_delete_Some in Hy as [_ Hy]. apply Nex. exists y. split; auto.
+           apply elem_of_cons. auto.
+Qed.
+
+Lemma nodes_keys r v : v ∈ List.map fst (nodes_list r) <-> is_Some (r_nodes r !! v).
+Proof.
+  unfold nodes_list. rewrite elem_of_list_In, in_map_iff. split.
+  - intros ([w n] & <- & Hin). apply elem_of_list_In, elem_of_map_to_list in Hin. simpl. eauto.
+  - intros [n Hn]. exists (v, n). split; auto. apply elem_of_list_In, elem_of_map_to_list. exact Hn.
+Qed.
+
+Lemma nodes_keys_nodup r : NoDup (List.map fst (nodes_list r)).
+Proof. apply NoDup_fst_map_to_list. Qed.
+
+Lemma inv_delete_repo s u pass : RepoInv s ->
+  RepoInv (fst (do_delete_repo s u pass)) /\ snd (do_delete_repo s u pass) <> Crash.
+Proof.
+  intros I. unfold do_delete_repo.
+  destruct (st_repo_of s !! u) as [i|] eqn:Hi; [|split; [exact I|discriminate]].
+  destruct (st_repos s !! i) as [r|] eqn:Hr; [|split; [exact I|discriminate]].
+  destruct (negb (String.eqb (r_root r) u)); [split; [exact I|discriminate]|].
+  match goal with |- context [if ?b then _ else _] => destruct b end; [split; [exact I|discriminate]|].
+  destruct (inv_repo_of s I u i Hi) as (R & r0 & v0 & n0 & HR & Hr0 & _).
+  rewrite Hr in Hr0. injection Hr0 as <-.
+  set (s1 := mkState (st_repos s) (st_repo_of s) (delete i (st_roots s)) (st_u2v s) (st_v2u s)
+                     (st_heads s) (st_next_v s) (st_next_r s) (st_next_i s)).
+  set (vs := List.map fst (nodes_list r)).
+  assert (Hall : forall v, v ∈ vs -> is_Some (st_v2u s1 !! v)).
+  { intros v Hv. apply nodes_keys in Hv as [n Hn]. simpl.
+    destruct (inv_nodes s I i R r v n HR Hr Hn) as [H _]. eauto. }
+  destruct (drop_versions_spec vs s1 (inv_bij s I) (nodes_keys_nodup r) Hall)
+    as (s2 & E & E1 & E2 & E3 & E4 & E5 & E6 & Hu & Hv & Hro).
+  rewrite E. simpl in *. split; [|discriminate].
+  (* a node of another live repo is not among the dropped versions *)
+  assert (Hother : forall j Rj rj w n, j <> i -> st_roots s !! j = Some Rj -> st_repos s !! j = Some rj ->
+             r_nodes rj !! w = Some n -> w ∉ vs).
+  { intros j Rj rj w n Nj HRj Hrj Hn Hin. apply nodes_keys in Hin as [n' Hn'].
+    apply Nj. apply (inv_disjoint s j i Rj R rj r w n n' I HRj Hrj Hn HR Hr Hn'). }
+  constructor.
+  - intros j Rj H. rewrite E2 in H. apply lookup_delete_Some in H as [Nj H]. rewrite E1. apply (inv_live s I j Rj H).
+  - intros x y. rewrite Hu, Hv. split; intros [H N]; split; auto; now apply (inv_bij s I).
+  - intros j Rj rj w n HRj Hrj Hn. rewrite E2 in HRj. apply lookup_delete_Some in HRj as [Nj HRj]. rewrite E1 in Hrj.
+    apply not_eq_sym in Nj. destruct (inv_nodes s I j Rj rj w n HRj Hrj Hn) as [A B].
+    pose proof (Hother j Rj rj w n Nj HRj Hrj Hn) as Nw. split.
+    + apply Hv. auto.
+    + apply Hro. split; auto. intros (y & Hy & Hy'). apply Nw.
+      pose proof (proj2 (inv_bij s I _ _) Hy') as U1. pose proof (proj2 (inv_bij s I _ _) A) as U2.
+      rewrite U1 in U2. now injection U2 as ->.
+  - intros x j Hj. apply Hro in Hj as [Hj Nex].
+    destruct (inv_repo_of s I x j Hj) as (Rj & rj & w & n & HRj & Hrj & Hx & Hn).
+    assert (Nj : j <> i).
+    { intros ->. rewrite Hr in Hrj. injection Hrj as <-. apply Nex. exists w. split.
+      - apply nodes_keys. eauto.
+      - now apply (inv_bij s I). }
+    exists Rj, rj, w, n. rewrite E2, E1. repeat split; auto.
+    + apply lookup_delete_Some. auto.
+    + apply Hu. split; auto. apply (Hother j Rj rj w n Nj HRj Hrj Hn).
+  - intros w x H. apply Hv in H as [H Nw]. destruct (inv_mapped s I w x H) as [j Hj].
+    exists j. apply Hro. split; auto. intros (y & Hy & Hy'). apply Nw.
+    pose proof (proj2 (inv_bij s I _ _) Hy') as U1. pose proof (proj2 (inv_bij s I _ _) H) as U2.
+    rewrite U1 in U2. now injection U2 as ->.
+  - intros w x H. apply Hv in H as [H _]. rewrite E4. apply (inv_next_v s I w x H).
+  - intros j rj H. rewrite E1 in H. rewrite E5. apply (inv_next_r s I j rj H).
+  - destruct (st_u2v s2 !! "") as [y|] eqn:E0; auto. apply Hu in E0 as [E0 _].
+    rewrite (inv_nil s I) in E0. discriminate.
+  - intros j Rj rj w n HRj Hrj Hn Hb L. rewrite E2 in HRj. apply lookup_delete_Some in HRj as [Nj HRj].
+    rewrite E1 in Hrj. rewrite E3. apply (inv_heads s I j Rj rj w n HRj Hrj Hn Hb L).
+Qed.
+
+Lemma delete_repo_frame s u pass : RepoInv s ->
+  is_done (snd (do_delete_repo s u pass)) = false -> fst (do_delete_repo s u pass) = s.
+Proof.
+  intros I. pose proof (inv_delete_repo s u pass I) as [_ NC]. revert NC. unfold do_delete_repo.
+  destruct (st_repo_of s !! u) as [i|]; auto.
+  destruct (st_repos s !! i) as [r|]; auto.
+  destruct (negb (String.eqb (r_root r) u)); auto.
+  match goal with |- context [if ?b then _ else _] => destruct b end; auto.
+  match goal with |- context [match ?x with Some _ => _ | None => _ end] => destruct x end; simpl.
+  - discriminate.
+  - congruence.
+Qed.
